@@ -59,8 +59,11 @@ def gen(rng, tier):
             frs.append([])
         for sizes in frs:
             cases.append(dict(base, kind=2, sizes=sizes, r=None))
+        if frs and frs[-1] and L:
+            # the same fragmentation delivered by a FILE object whose read() returns fewer bytes than asked for
+            cases.append(dict(base, kind=1, sizes=[len(c) for c in framing.cut(stream, rng.choice(frs))], r="script"))
         if i % 3 == 0:
-            start = len(cases) - (1 + len(rs) + len(frs))
+            start = len(cases) - (1 + len(rs) + len(frs) + (1 if frs and frs[-1] and L else 0))
             T = rng.choice([0, 1, 6, 7, 20, 100, 300])
             for c in cases[start:]:
                 cases.append(dict(c, T=T))
